@@ -238,6 +238,24 @@ fn main() {
         skipped += w.skipped_panics;
     }
 
+    // second alphabet, one token shorter
+    let lex2_len = lex_len - 1;
+    let ws = lex::sweep(
+        lex::SIGMA_ALT,
+        lex2_len,
+        args.threads,
+        args.seed,
+        || LexW { groups: Groups::new(), execs: 0, skipped_panics: 0 },
+        |_, _, _| {},
+        60,
+        |_, _| {},
+    );
+    for w in ws {
+        out.groups.merge(w.groups);
+        lex_execs += w.execs;
+        skipped += w.skipped_panics;
+    }
+
     // process: streams of <=k pool messages, N in {16, 64}, all chunkings with <=2 cuts
     let k = if thorough { 3 } else { 2 };
     let mut streams: Vec<Vec<u8>> = vec![];
@@ -329,7 +347,7 @@ fn main() {
     );
     out.cov(
         "bounds",
-        json!({"lex_run": {"alphabet": lex::sigma_json(), "max_tokens": lex_len, "writer": "heapless::Vec<u8,64>", "executions": lex_execs},
+        json!({"lex_run": {"alphabet": lex::sigma_json(), "max_tokens": lex_len, "second_alphabet": lex::sigma_alt_json(), "second_alphabet_max_tokens": lex_len - 1, "writer": "heapless::Vec<u8,64>", "executions": lex_execs},
                "process": {"pool": POOL.iter().map(|m| show(m)).collect::<Vec<_>>(), "max_messages": k, "N": [16, 64], "chunkings": "all with <=2 cuts + one byte per read", "executions": proc_execs},
                "long_mnemonics": {"lengths": "1..=40, both cases, declared mnemonics of 11 and 23 characters", "executions": hdr_execs},
                "write_response": {"values": resp_execs, "writer": "heapless::Vec<u8,512>", "types": "bool, all integer widths, f32/f64 (every sign/exponent x 3 mantissas), &str, heapless::String, Characters, Arbitrary, tuples, slices, heapless::Vec, Error, ()"}}),
